@@ -124,6 +124,13 @@ class SocketPort(BaseIOPort):
             raise OSError(err.args[1]) from err
 
     def _close(self):
+        # The file objects keep the connection open until they are
+        # closed too, so the other end would never see a disconnect.
+        for file in (self._rfile, self._wfile):
+            try:
+                file.close()
+            except OSError:
+                pass
         self._socket.close()
 
 
